@@ -74,7 +74,7 @@ def drive(coro):
     raise RuntimeError("template coroutine suspended")
 
 
-def jinja_outcomes(kind, src, datas):
+def jinja_outcomes(kind, src, datas, limit=20):
     """-> [(value_outcome, render_outcome)] per data assignment, from the real jinja2."""
     box = []
 
@@ -83,7 +83,7 @@ def jinja_outcomes(kind, src, datas):
         return ""
 
     out = []
-    with core.alarm(20):
+    with core.alarm(limit):
         try:
             env = make_env(kind, rec if kind == "async" else None)
             if kind == "async":
@@ -203,10 +203,14 @@ def check_case(p, section, label, ast, src, kind, data_ids):
         p.count("skipped_unspecified", len(refs))
         return
     try:
-        got = jinja_outcomes(kind, src, datas)
+        try:
+            got = jinja_outcomes(kind, src, datas)
+        except core.CaseTimeout:  # a stalled machine is not a finding: one retry with a long limit
+            p.count("retried_after_timeout")
+            got = jinja_outcomes(kind, src, [G.make_data(i) if i >= 0 else {} for i in data_ids], limit=180)
     except core.CaseTimeout:
         p.evals += 1
-        p.violation(f"C02/hang/{root_class(ast)}", {"msg": f"[{kind}] {src!r}: no answer within 20 s",
+        p.violation(f"C02/hang/{root_class(ast)}", {"msg": f"[{kind}] {src!r}: no answer within 20 s and, retried, within 180 s",
                                                     "script": script_for(kind, src, data_ids[0])})
         return
     for di, ref, (vo, ro) in zip(data_ids, refs, got):
